@@ -100,6 +100,16 @@ func (x *Exec) callCommon(fr *Frame, st *State, cc *ssa.CallCommon, pre []Val, i
 				x.note("calls of the function parameter " + n + " of " + x.c.Key + " are assumed to be side-effect free (checked at its call sites only informally)")
 				var res []Val
 				sig := cc.Signature()
+				if sig.Results().Len() == 1 && len(args) == 1 {
+					if a, ok := args[0].(Sc); ok {
+						// a pure function of its argument: the same uninterpreted function as applies(name, arg) in specs
+						fn := quoteSym("param:" + n)
+						rs := x.sortOf(sig.Results().At(0).Type())
+						x.decls.add(fn, fmt.Sprintf("(declare-fun %s (%s) %s)", fn, a.T.Sort, rs))
+						k(st, fr, []Val{Sc{app(rs, fn, a.T), sig.Results().At(0).Type()}})
+						return
+					}
+				}
 				for i := 0; i < sig.Results().Len(); i++ {
 					res = append(res, x.freshVal(st, "pc", sig.Results().At(i).Type()))
 				}
